@@ -1,10 +1,16 @@
 (* C15 -- a damaged compressed body is never passed off as content.
-   The integrity checks themselves live in flate2 (oracle); what is proved is that the crate's
-   glue cannot bypass them: any error of the outermost decoder is an error of decode_body,
-   a truncated body fails given that the decoder rejects truncations, and a success is always
-   the complete output of each decoder in the chain. *)
-From Coq Require Import String.
-From Http Require Import Model.Bytes Model.Headers Model.Coding Proofs.Rewrite Proofs.CodingGlue.
+   Two layers.  (1) For ANY stream decoders (function parameters): the crate's glue cannot bypass
+   them: any error of the outermost decoder is an error of decode_body, a truncated body fails
+   given that the decoder rejects truncations, a success is always the complete output of each
+   decoder in the chain.  (2) For the model of flate2/miniz_oxide (Model/Inflate.v, tied to the
+   real library on every run by the correspondence check): the decoders read strictly left to
+   right, so every strict truncation of a complete gzip / zlib / bare deflate stream is refused,
+   a success pins the stored CRC-32 and length (Adler-32) to the returned content, altering those
+   fields alone always fails, and any other gzip signature is refused -- no hypothesis left. *)
+From Coq Require Import String List NArith.
+From Http Require Import Model.Bytes Model.Headers Model.Coding Model.Inflate Proofs.Rewrite Proofs.CodingGlue
+     Proofs.InflateLocal Proofs.InflateTop Proofs.InflateC15.
+Import ListNotations.
 
 Theorem C15_outer_decoder_error_is_failure :
   forall (gunzip inflate_raw inflate_zlib : bytes -> option bytes)
@@ -46,3 +52,64 @@ Theorem C15_zlib_never_falls_back :
     zlib_header b = true -> deflate_decode inflate_raw inflate_zlib b = inflate_zlib b.
 Proof. intros ir iz b H. unfold deflate_decode. rewrite H. reflexivity. Qed.
 Print Assumptions C15_zlib_never_falls_back.
+
+(* ---- with the model of flate2 in place of the parameters: no hypothesis about the decoders ---- *)
+
+(* every strict truncation of a body that is exactly one gzip member / zlib stream / bare deflate
+   stream makes decode_body fail *)
+Theorem C15_truncation_fails_flate2_model :
+  forall (hs : list header) (f : format) (d e p : bytes),
+    exact_stream f d e -> strict_prefix p e ->
+    header_tokens hs CONTENT_ENCODING = [coding_token f] ->
+    decode_body gunzip_model inflate_raw_model inflate_zlib_model hs p = None.
+Proof. exact truncated_body_fails_m. Qed.
+Print Assumptions C15_truncation_fails_flate2_model.
+
+(* gzip: success means the 8 bytes after the deflate data are the CRC-32 and the length (mod 2^32)
+   of the returned content, and replacing them by any 8 bytes that encode another CRC or another
+   length makes the decoder fail, whatever follows *)
+Theorem C15_gzip_checks_applied :
+  forall b out, gunzip_model b = Some out ->
+  exists pre foot rest, b = pre ++ foot ++ rest /\ length foot = 8 /\
+    le32 (firstn 4 foot) = crc32 out /\ le32 (skipn 4 foot) = (N.of_nat (length out) mod M32)%N /\
+    forall foot' y, length foot' = 8 ->
+      le32 (firstn 4 foot') <> le32 (firstn 4 foot) \/ le32 (skipn 4 foot') <> le32 (skipn 4 foot) ->
+      gunzip_fuel (fuel_for b) (pre ++ foot' ++ y) = Bad.
+Proof. exact gunzip_model_checks. Qed.
+Print Assumptions C15_gzip_checks_applied.
+
+(* zlib: the same for the Adler-32 *)
+Theorem C15_zlib_checks_applied :
+  forall b out, inflate_zlib_model b = Some out ->
+  exists pre a4 rest, b = pre ++ a4 ++ rest /\ length a4 = 4 /\ be32 a4 = adler32 out /\
+    forall a4' y, length a4' = 4 -> be32 a4' <> be32 a4 ->
+      inflate_zlib_fuel (fuel_for b) (pre ++ a4' ++ y) = Bad.
+Proof. exact zlib_model_checks. Qed.
+Print Assumptions C15_zlib_checks_applied.
+
+(* any alteration of the gzip signature fails *)
+Theorem C15_gzip_signature :
+  forall b, nth 0 b 0%N <> 31%N \/ nth 1 b 0%N <> 139%N -> gunzip_model b = None.
+Proof. exact gunzip_bad_signature. Qed.
+Print Assumptions C15_gzip_signature.
+
+(* the decoders never look behind the stream they decode: same answer whatever follows *)
+Theorem C15_decoding_ignores_what_follows :
+  forall f b out rest, inflate_fuel f b = Ok out ([], rest) ->
+  exists c, b = c ++ rest /\ forall y, inflate_fuel f (c ++ y) = Ok out ([], y).
+Proof. exact inflate_raw_ignores_tail. Qed.
+Print Assumptions C15_decoding_ignores_what_follows.
+
+(* non-vacuity: a gzip member, a zlib stream and a bare stream of "hello hello hello hello" are exact
+   streams; the checks hold on them *)
+Example C15_exact_streams :
+  exact_stream Raw [104;101;108;108;111;32;104;101;108;108;111;32;104;101;108;108;111;32;104;101;108;108;111]%N
+               [203;72;205;201;201;87;200;64;39;1]%N /\
+  exact_stream Zl [104;105]%N [120;156;203;200;4;0;1;59;0;210]%N /\
+  exact_stream Gz [104;105]%N [31;139;8;0;0;0;0;0;0;3;203;200;4;0;172;42;147;216;2;0;0;0]%N.
+Proof. unfold exact_stream. vm_compute. repeat split. Qed.
+
+(* the model of CRC-32 and Adler-32 on the standard check values ("123456789") *)
+Example C15_checksums :
+  crc32 [49;50;51;52;53;54;55;56;57]%N = 3421780262%N /\ adler32 [49;50;51;52;53;54;55;56;57]%N = 152961502%N.
+Proof. vm_compute. split; reflexivity. Qed.
